@@ -200,6 +200,7 @@ func trimQuotes(s string) string {
 
 %type <boolean> bool_value
 %type <num32> int_value
+%type <num32> signed_int_value
 %type <token> string_or_number
 %type <token> string_value
 %type <token> optional_unknown_arg
@@ -1434,6 +1435,25 @@ int_value :
         $$ = int(n)        
     }
 
+signed_int_value : 
+    token_number {
+        n, err := strconv.ParseInt($1, 10, 32)
+        if err != nil {
+            yylex.Error(fmt.Sprintf("not a valid number %s", $1))
+            goto ret1
+        }       
+        $$ = int(n)
+    }
+    | token_string {
+        s := trimQuotes($1)
+        n, err := strconv.ParseInt(s, 10, 32)
+        if err != nil {
+            yylex.Error(fmt.Sprintf("not a valid number %s", $1))
+            goto ret1
+        }       
+        $$ = int(n)        
+    }
+
 bool_value :
     kywd_true {$$ = true} 
     | kywd_false {$$ = false}
@@ -1529,7 +1549,7 @@ enum_body_stmt :
     | unknown_stmt
 
 enum_value :
-    kywd_value int_value statement_end {
+    kywd_value signed_int_value statement_end {
         l := yylex.(*lexer)
         l.builder.EnumValue(l.stack.peek(), $2)
         if chkErr2(l, "value", $3) {
